@@ -25,6 +25,60 @@ void reim_to_tnx_basic_ref(const REIM_TO_TNX_PRECOMP* tables, double* r, const d
 
 typedef __float128 q128;
 
+#include <immintrin.h>
+// Standalone copy of reim_to_znx64_avx2_bnd63_fma (spqlios/reim/reim_conversions_avx.c) with the one-line repair of
+// finding D7:   const double offset = precomp->divisor * (0.5 - 0x1p-54);   (was: precomp->divisor / 2.)
+// It is streamed as variant "bnd63" so that the model of the repaired kernel is validated against hardware whether
+// or not the tree under test already contains the repair.
+static void fixed_reim_to_znx64_avx2_bnd63_fma(const REIM_TO_ZNX64_PRECOMP* precomp, int64_t* r, const void* x) {
+  static const uint64_t SIGN_MASK = 0x8000000000000000UL;
+  static const uint64_t EXPO_MASK = 0x7FF0000000000000UL;
+  static const uint64_t MANTISSA_MASK = 0x000FFFFFFFFFFFFFUL;
+  static const uint64_t MANTISSA_MSB = 0x0010000000000000UL;
+  const double divisor_bits = precomp->divisor * ((double)(INT64_C(1) << 52));
+  const double offset = precomp->divisor * (0.5 - 0x1p-54);
+  const __m256d SIGN_MASK_4 = _mm256_castsi256_pd(_mm256_set1_epi64x(SIGN_MASK));
+  const __m256i EXPO_MASK_4 = _mm256_set1_epi64x(EXPO_MASK);
+  const __m256i MANTISSA_MASK_4 = _mm256_set1_epi64x(MANTISSA_MASK);
+  const __m256i MANTISSA_MSB_4 = _mm256_set1_epi64x(MANTISSA_MSB);
+  const __m256d offset_4 = _mm256_set1_pd(offset);
+  const __m256i divi_bits_4 = _mm256_castpd_si256(_mm256_set1_pd(divisor_bits));
+  double(*in)[4] = (double(*)[4])x;
+  __m256i* out = (__m256i*)r;
+  __m256i* outend = (__m256i*)(r + (precomp->m << 1));
+  do {
+    __m256d a = _mm256_loadu_pd(in[0]);
+    __m256d asign = _mm256_and_pd(a, SIGN_MASK_4);
+    a = _mm256_add_pd(a, _mm256_or_pd(asign, offset_4));
+    __m256i sign_mask = _mm256_castpd_si256(asign);
+    sign_mask = _mm256_sub_epi64(_mm256_set1_epi64x(0), _mm256_srli_epi64(sign_mask, 63));
+    __m256i a0exp = _mm256_and_si256(_mm256_castpd_si256(a), EXPO_MASK_4);
+    __m256i a0lsh = _mm256_sub_epi64(a0exp, divi_bits_4);
+    __m256i a0rsh = _mm256_sub_epi64(divi_bits_4, a0exp);
+    a0lsh = _mm256_srli_epi64(a0lsh, 52);
+    a0rsh = _mm256_srli_epi64(a0rsh, 52);
+    __m256i a0pos = _mm256_and_si256(_mm256_castpd_si256(a), MANTISSA_MASK_4);
+    a0pos = _mm256_or_si256(a0pos, MANTISSA_MSB_4);
+    a0lsh = _mm256_sllv_epi64(a0pos, a0lsh);
+    a0rsh = _mm256_srlv_epi64(a0pos, a0rsh);
+    __m256i final = _mm256_or_si256(a0lsh, a0rsh);
+    final = _mm256_xor_si256(final, sign_mask);
+    final = _mm256_sub_epi64(final, sign_mask);
+    _mm256_storeu_si256(out, final);
+    ++out;
+    ++in;
+  } while (out < outend);
+}
+// does the library under test already contain the repair?  (probe: pred(1/2) with divisor 1)
+static bool lib_bnd63_is_fixed() {
+  REIM_TO_ZNX64_PRECOMP p;
+  p.m = 2; p.divisor = 1.0; p.function = 0;
+  double x[4] = {0.49999999999999994, 0, 0, 0};
+  int64_t r[4];
+  reim_to_znx64_avx2_bnd63_fma(&p, r, x);
+  return r[0] == 0;
+}
+
 static inline uint64_t d2u(double d) {
   uint64_t u;
   memcpy(&u, &d, 8);
@@ -270,11 +324,14 @@ static void run_to_znx64(Out& out, Rng& rng, int thorough) {
   std::vector<int> js;
   for (int j = -8; j <= 8; j++) js.push_back(j);
   if (thorough) { js.push_back(-200); js.push_back(-64); js.push_back(33); js.push_back(64); js.push_back(200); }
-  const char* variants[] = {"ref", "bnd50", "bnd63", "api0", "api1"};
-  for (int vi = 0; vi < 5; vi++)
+  const bool libfixed = lib_bnd63_is_fixed();
+  out.count(libfixed ? "lib_bnd63_fixed" : "lib_bnd63_old");
+  // vi 5 = standalone repaired kernel.  The library's own kernel is named after what it is.
+  const char* variants[] = {"ref", "bnd50", libfixed ? "bnd63" : "bnd63old", "api0", libfixed ? "api1" : "api1old", "bnd63"};
+  for (int vi = 0; vi < 6; vi++)
     for (uint32_t m : MS)
       for (int j : js) {
-        if ((vi == 1 || vi == 2) && m < 2) continue;
+        if ((vi == 1 || vi == 2 || vi == 5) && m < 2) continue;
         // quick tier: every (variant, j) on two m, every (variant, m) on three j
         if (!thorough && !(m == 8 || m == 64 || j == 0 || j == -3 || j == 5)) continue;
         double d = ldexp(1.0, j);
@@ -287,7 +344,7 @@ static void run_to_znx64(Out& out, Rng& rng, int thorough) {
           std::vector<double> x(n);
           for (size_t i = 0; i < n; i++) x[i] = ldexp(y[i], j);
           std::vector<int64_t> r(n, 77);
-          uint32_t log2bound = (vi >= 3) ? (uint32_t)((c % 3 == 0) ? 50 : (c % 3 == 1) ? 52 : 63) : 0;
+          uint32_t log2bound = (vi == 3 || vi == 4) ? (uint32_t)((c % 3 == 0) ? 50 : (c % 3 == 1) ? 52 : 63) : 0;
           REIM_TO_ZNX64_PRECOMP direct;
           direct.m = m;
           direct.divisor = d;
@@ -297,6 +354,7 @@ static void run_to_znx64(Out& out, Rng& rng, int thorough) {
           if (vi == 0) reim_to_znx64_ref(&direct, r.data(), x.data());
           else if (vi == 1) reim_to_znx64_avx2_bnd50_fma(&direct, r.data(), x.data());
           else if (vi == 2) reim_to_znx64_avx2_bnd63_fma(&direct, r.data(), x.data());
+          else if (vi == 5) { fixed_reim_to_znx64_avx2_bnd63_fma(&direct, r.data(), x.data()); fn = 2; }
           else {
             mask(vi == 4);
             REIM_TO_ZNX64_PRECOMP* p = new_reim_to_znx64_precomp(m, d, log2bound);
@@ -315,8 +373,16 @@ static void run_to_znx64(Out& out, Rng& rng, int thorough) {
           std::string verdict = "ok";
           bool indom = true;
           q128 bound = fn == 1 ? pow2q(50) : pow2q(52);   // documented domain of the function that ran
+          const bool fixed63 = fn == 2 && (vi == 5 || libfixed);
           for (size_t i = 0; i < n; i++) {
             q128 q = (q128)x[i] / (q128)d;
+            if (fixed63 && fabsq(q) >= pow2q(52) && fabsq(q) < pow2q(63)) {
+              // extended range of the repaired kernel: x/d is an integer and must be returned exactly
+              if ((q128)r[i] != q)
+                verdict = fmt("FAIL to_znx64 bnd63 wide: x=%" PRIu64 " (x/d=%.17g) d=2^%d -> %" PRId64, d2u(x[i]), y[i], j, r[i]);
+              out.count("bnd63_wide_checked");
+              continue;
+            }
             if (!(fabsq(q) < bound)) { indom = false; continue; }
             q128 err = fabsq((q128)r[i] - q);
             if (err > (q128)0.5) {
